@@ -17,6 +17,12 @@ from vlib import common, cppdrv, cppsuite, refsem, writemodel
 LEVEL = "exploration"
 
 
+def cppdrv_first_error(err):
+    import re as _re
+    m = _re.search(r"error: (.*)", err or "")
+    return _re.sub(r"'[^']*'", "'X'", m.group(1))[:100] if m else "unknown"
+
+
 def candidate_values(rng, kind, exp_probe):
     """Values in and just outside the field's range (exp_probe: dict from a
     model evaluation with value 0, or None)."""
@@ -46,8 +52,8 @@ def module_case(arg):
         built = cppsuite.Built(d, gm)
         b = built.build("write", flavour)
         if b is None:
-            out["viol"].append({"mech": "driver-does-not-compile", "what": built.build_errors[("write", flavour)][-1500:],
-                                "coords": gm["coords"], "text": gm["text"]})
+            # a header + driver that does not compile is C07's observation; here the module is a counted skip
+            out["compile_failed"] = cppdrv_first_error(built.build_errors[("write", flavour)])
             return out
         out["built"] = True
         tops = [s for s in m.structs if s.kind == "struct"]
@@ -128,6 +134,12 @@ def module_case(arg):
                 mech = "write-differs:" + problems[0][0]
                 if exp["signed_enum_negative"] or (leaf["kind"] == "enum" and eff < 0):
                     mech = "signed-enum-narrow-field-zero-extended"
+                elif leaf.get("target_kind") == "bcd" and leaf["kind"] == "vint":
+                    cont = 8
+                    while cont < exp["nbits"]:
+                        cont *= 2
+                    if exp["tval"] < 0 or exp["tval"] >= (1 << cont):
+                        mech = "transform-virtual-over-bcd-narrows-value"
                 out["viol"].append({"mech": mech, "what": "struct %s params %r bytes %s leaf %s value %d: %s" % (
                     s.name, params, data.hex(), ".".join(str(x) for _k, x in leaf["path"]), eff,
                     "; ".join("%s expected %s got %s" % p for p in problems)),
@@ -163,6 +175,10 @@ def run(ctx):
         v = val["val"]
         ctx.count("modules")
         ctx.count("modules_built", 1 if v["built"] else 0)
+        if v.get("compile_failed"):
+            ctx.count("modules_skipped_driver_does_not_compile")
+            ctx.extra.setdefault("compile_failures", {}).setdefault(v["compile_failed"], 0)
+            ctx.extra["compile_failures"][v["compile_failed"]] += 1
         ctx.evaluations += v["cases"]
         ctx.count("write_attempts_judged", v["cases"] - v["abstained"])
         ctx.count("model_abstained", v["abstained"])
